@@ -54,6 +54,8 @@ func c06Gen(t *rapid.T) any {
 			op.HoldMs = oneOf(t, "hold", []int{1000, 5500, 7000})
 			op.ReadLagMs = oneOf(t, "lag", []int{1, 500, 3000})
 			op.Down = 300000 + uniform(t, "bigdown", 4096)*200
+		} else if pct(t, "accfirst", 30) {
+			op.AccFirst = true
 		}
 		c.Ops = append(c.Ops, op)
 	}
@@ -186,7 +188,7 @@ func vtHook(name string) {
 
 var propC06VT = register(&Prop{
 	ID: "C06", Name: "C06VT", Gen: c06Gen, New: func() any { return &vtCase{} }, Run: c06Run,
-	Rule: "virtual time (testing/synctest, go1.26.8): one net/rpc host/plugin pair over net.Pipe per case; rapid draws 1-8 accept/dial pairs with distinct ids (1000+i or, a quarter of the time, edge values of the uint32 range incl. 0), either side dialling, accept-first or dial-first, gaps from {0,1,10,100,1000,2500,4999} ms (all inside the 5 s window), payloads from 0 B to 1 MiB each way, " +
+	Rule: "virtual time (testing/synctest, go1.26.8): one net/rpc host/plugin pair over net.Pipe per case; rapid draws 1-8 accept/dial pairs with distinct ids (1000+i or, a quarter of the time, edge values of the uint32 range incl. 0), either side dialling, accept-first or dial-first, gaps from {0,1,10,100,1000,2500,4999} ms (all inside the 5 s window), payloads from 0 B to 1 MiB each way with the dialling or (30%) the accepting end speaking first, " +
 		"and 0-6 concurrent Dispense calls of distinctly named plugins; everything runs concurrently. Oracle: each dialer sends (id, nonce)+payload and each acceptor must read exactly its own id's token and bytes and vice versa (complete, in order), every accept and dial inside the window succeeds, each dispensed client is answered by the server object of the name it asked for. " +
 		"Non-trivial: >= 2 ids outstanding in both directions, or a dial-first pair, or a gap >= 1 s.",
 	Assumptions: []string{"virtual time: the broker's 5 s timers and all offsets are exact; yamux keeps a global timer pool, so one bubble spans the whole rapid run"},
